@@ -114,7 +114,7 @@ func runC01(c *Ctx, r *Report) {
 	r.Rule("C01.R5", "validation precedes normalisation: an ordering test between two program integers that rejects the operation (returns an error) is not applied to values that were both already clamped by min() to the same bound (clamping maps distinct invalid pairs to equal, valid ones)")
 	r.Rule("C01.R6", "captured output is delivered: in a function that stores the address of a local buffer into State.Out, every path from that store to a return restores Out and then writes the buffer's bytes to the restored writer (or leaves through the buffer-is-empty edge)")
 	r.Rule("C01.R7", "control objects are not values: no result of evalInternal (the only producer of break/continue/return objects) reaches an array element, an argument list, a map pair or a binding unless a Type()==RETURN test excluded it on that path or it went through State.Eval, which unwraps `return` and rejects the others (its comma-ok assertion to ReturnValue is checked)")
-	r.Rule("C01.R8", "dereference before discrimination: a value that may be an object.Reference (interprocedural may-hold analysis from the places a Reference is boxed; object.Value, Reference.ObjValue, a Type()!=REFERENCE test or a failed assertion to Reference clean it, edge by edge through phis) is never compared by tag with a storable value type, asserted to the Go type of one, or compared with the TRUE/FALSE/NULL singletons")
+	r.Rule("C01.R8", "dereference before discrimination: a value that may be an object.Reference (interprocedural may-hold analysis from the places a Reference is boxed, plus elements of argument lists: by the extension registry for callbacks - positions declared ANY or beyond the declared types are not dereferenced by applyExtension - and by the list analysis elsewhere; object.Value, Reference.ObjValue, a Type()!=REFERENCE test or a failed assertion to Reference clean it, edge by edge through phis) is never compared by tag with a storable value type, asserted to the Go type of one, or compared with the TRUE/FALSE/NULL singletons")
 	r.Rule("C01.R9", "loops honour break and continue: where State.evalInternal is called in a cycle of the evaluator on a node that does not change in that cycle (the body of a loop construct) and the result is tested for RETURN, its ReturnValue.ControlType is compared with BREAK and with CONTINUE; the BREAK arm cannot reach the body evaluation again, the CONTINUE arm can")
 	r.Rule("C01.R10", "binding errors are not dropped: in package eval the Object returned by Environment.Set / CreateOrSet (an Error for a bound constant or a built-in name) is used, never discarded")
 	r.Rule("C01.R4", "errors stop evaluation: no result of Eval/evalInternal is stored into an array element, a map pair or a binding unless a Type()==ERROR test has excluded the error on that path (interprocedural)")
